@@ -30,7 +30,10 @@ Step(e) ==
     [] e.ev = "Preexisting" ->
          /\ IF e.scope = "user" THEN user' = user \cup Elems(e.words) /\ UNCHANGED file
             ELSE file' = [file EXCEPT ![e.doc] = @ \cup Elems(e.words)] /\ UNCHANGED user
-         /\ UNCHANGED <<maybeU, maybeF, crashedAt, baseline, afterCrash>>
+         \* lines of a hand-edited file that are not words (a phrase, a remark): they may stay in the file, nothing more is claimed
+         /\ IF e.scope = "user" THEN maybeU' = maybeU \cup Elems(e.lines) /\ UNCHANGED maybeF
+            ELSE maybeF' = [maybeF EXCEPT ![e.doc] = @ \cup Elems(e.lines)] /\ UNCHANGED maybeU
+         /\ UNCHANGED <<crashedAt, baseline, afterCrash>>
     [] e.ev = "Added" ->
          /\ IF e.scope = "user" THEN user' = user \cup {e.w} /\ UNCHANGED file
             ELSE file' = [file EXCEPT ![e.doc] = @ \cup {e.w}] /\ UNCHANGED user
